@@ -134,6 +134,7 @@ type scenario struct {
 	Cond    string           `json:"cond,omitempty"` // name of the backend condition
 	Spec    *spec            `json:"spec,omitempty"` // convio
 	Backend *backendScenario `json:"backend,omitempty"`
+	Lib     *libScenario     `json:"lib,omitempty"`
 }
 
 var foreignVals = []error{io.EOF, io.ErrUnexpectedEOF}
@@ -838,6 +839,8 @@ func run(r *h.Run, sc scenario, emit bool) {
 			runConvIO(r, sc, emit)
 		case "backend":
 			runBackend(r, *sc.Backend, emit)
+		case "lib":
+			runLib(r, *sc.Lib, emit)
 		}
 	})
 }
@@ -963,6 +966,7 @@ func main() {
 
 	// --- backend error values through the converters (known finding first)
 	safely(r, scenario{Kind: "backend"}, func() { backendSweep(r) })
+	safely(r, scenario{Kind: "lib"}, func() { libSweep(r) })
 
 	// --- corpus first: the confirmed defect D18 and its variants (reason duplicated when the target is itself reasoned)
 	run(r, scenario{Kind: "chain", Chain: &chain{Base: sent(inv), Ops: []op{{Op: "New", M: []byte("foo")}, {Op: "New", M: []byte("bar")}}}}, true)
